@@ -29,6 +29,10 @@ EXTENDS Integers, Sequences, FiniteSets, TLC
 CONSTANTS CatchNotifications,   \* trigger() catches what notification handlers raise
           LogSafe,              \* reporting a caught exception cannot itself raise
           Script,               \* the protocol steps of one association: sequence of records [act, notes, iv]
+          Handlers,             \* how many handlers the application bound to each notification event (they are called in order)
+          Continue,             \* what trigger() does with the handlers after one that raised: "skip" (the code: the loop is left),
+                                \* "protected" (each later handler is called under its own try), "unprotected" (later handlers are
+                                \* called from the except branch: what a second one raises escapes)
           Flavours              \* kinds of raising handler: "plain" and kinds whose report may fail ("noname", "noargs")
 
 VARIABLES pos,       \* next step of the script
@@ -54,10 +58,12 @@ ReportOK == LogSafe \/ flavour = "plain"
 Step ==
   /\ pos <= Len(Script) /\ ~dead
   /\ LET s == Script[pos] IN
-     \E R \in SUBSET s.notes : \E ivraises \in BOOLEAN :
+     \* R: the invocations that would raise if made - (event, position of the handler among those bound to it)
+     \E R \in SUBSET (s.notes \X (1..Handlers)) : \E ivraises \in BOOLEAN :
         /\ (s.iv = "none" => ~ivraises)
         /\ nraised' = (nraised \/ R # {})
-        /\ IF R # {} /\ (~CatchNotifications \/ ~ReportOK)
+        /\ IF \/ R # {} /\ (~CatchNotifications \/ ~ReportOK)
+              \/ Continue = "unprotected" /\ \E e \in s.notes : Cardinality({h \in 1..Handlers : <<e, h>> \in R}) >= 2
            THEN dead' = TRUE /\ UNCHANGED wire                     \* escaped into the protocol machinery
            ELSE /\ dead' = FALSE
                 /\ wire' = Append(wire, IF ivraises THEN Reaction(s.iv) ELSE s.act)
